@@ -11,6 +11,11 @@
 // lost on the server) is pruned with several flag sets. Before every `git lfs prune` the local store is
 // restored to the full set; deleted = objects before − objects after.
 //
+// Routes and faults (faults.go): besides `git lfs prune <flags>` the same states are pruned through `git lfs fetch
+// --prune` (verification by configuration, --dry-run), and every case ends with runs on a deliberately damaged
+// repository (one Git object a scan needs removed / emptied / garbage, or a branch pointing at a missing commit)
+// judged against the must-retain set computed before the damage.
+//
 // Oracle (oracle.go): a deliberately weak lower bound "must-retain", computed
 // with plain git plumbing (filters disabled) + ptrspec only. A violation is a
 // deleted object in must-retain, anything deleted under --dry-run, or, with
@@ -128,6 +133,10 @@ type caseCfg struct {
 	WtSole  bool
 	WtKind2 string
 	WtSole2 bool
+	// prune reached through `git lfs fetch --prune` (faults.go)
+	FetchRuns []fetchRun
+	// flag sets of the runs on the deliberately damaged repository (the kind of damage depends on the state, see planDamage)
+	DamageFlagsets [][]string
 }
 
 // PruneRemote is the remote prune treats as "pushed to" (default origin).
@@ -228,6 +237,8 @@ func genCfg(run *evid.Run, r *rand.Rand, idx int) caseCfg {
 	}
 	r5 := rand.New(rand.NewSource(mix(run.Seed, idx, 5)))
 	c.WtKind, c.WtSole, c.WtKind2, c.WtSole2 = genWorktreeKinds(run.Seed, idx, r5)
+	c.FetchRuns = genFetchRuns(run.Seed, idx, c.Remote)
+	c.DamageFlagsets = [][]string{{}, [][]string{{"--verify-remote", "--when-unverified=continue"}, {"--recent"}, {"--force"}, {"--verify-remote"}}[(idx/2+int(uint64(run.Seed)%4))%4]}
 	n := len(flagPool)
 	period := idx / len(slotTags)
 	dry := append([]string{"--dry-run"}, flagPool[(idx*3+period)%n]...)
@@ -277,6 +288,8 @@ type cs struct {
 	model *histgen.Model
 	ptrs  map[string][]histgen.PointerRef // commit/tree sha -> pointers
 	blobs map[string]*blobPtr
+	// set once the repository was damaged on purpose (faults.go): the oracle's plumbing must not run any more
+	damaged bool
 }
 
 func (c *cs) trigger() string {
@@ -450,6 +463,27 @@ func (c *cs) stepWindowBranch(dir string) {
 	if !c.git(dir, "window-branch", "checkout", "-q", "-b", br).OK() {
 		return
 	}
+	// (own stream) the tip commit also REPLACES a file an older commit of the branch added: a previous version that
+	// only the recent-commits window of this non-HEAD recent ref keeps (measured from the tip's own date)
+	func() {
+		old := c.r
+		c.r = rand.New(rand.NewSource(mix(c.run.Seed, c.cfg.Idx, 8)))
+		defer func() { c.r = old }()
+		first := age
+		for _, a := range ageDays {
+			if a > age && c.r.Intn(2) == 0 {
+				first = a
+				break
+			}
+		}
+		p := c.name("wv")
+		c.writeLFS(dir, p)
+		c.git(dir, "add", "add", "--", p)
+		if c.gitEnv(dir, "commit", c.dateEnv(first), "commit", "-q", "-m", fmt.Sprintf("first version of %s on the window branch (age %.1fd)", p, first)).OK() {
+			c.writeLFS(dir, p)
+			c.feat["window-branch-tip-replaces-version"] = true
+		}
+	}()
 	c.writeLFS(dir, c.newPath("w"))
 	c.writeLFS(dir, c.newPath("w"))
 	if c.commit(dir, "tip of a branch inside the offset part of the recent-refs window", age) {
@@ -940,6 +974,7 @@ func (c *cs) buildState() {
 	if cfg.Idx%3 == 1 {
 		c.stepTagOnly(c.main)
 	}
+	c.stepVersionBranch()
 	// final position of the main worktree
 	switch c.r.Intn(4) {
 	case 0:
@@ -953,6 +988,21 @@ func (c *cs) buildState() {
 	}
 	if c.r.Intn(3) == 0 {
 		c.git(c.main, "stash-drop", "stash", "drop", "-q")
+	}
+	if c.feat["version-branch"] && cfg.Idx%2 == 1 {
+		// HEAD much newer than the version branch: a recent-commits window taken from HEAD (or from now) instead of
+		// from the tip of `vb` misses the replaced version. Only this one path is committed, staged files stay staged.
+		func() {
+			old := c.r
+			c.r = rand.New(rand.NewSource(mix(c.run.Seed, cfg.Idx, 10)))
+			defer func() { c.r = old }()
+			p := c.name("fresh")
+			c.writeLFS(c.main, p)
+			if c.git(c.main, "add", "add", "--", p).OK() &&
+				c.gitEnv(c.main, "commit", c.dateEnv(0.5), "commit", "-q", "-m", "fresh commit at HEAD (age 0.5d)", "--", p).OK() {
+				c.feat["fresh-head-commit"] = true
+			}
+		}()
 	}
 	if cfg.Cwd == "worktree" && len(c.wts) == 0 {
 		c.stepWorktree()
@@ -1113,7 +1163,52 @@ func runCase(run *evid.Run, idx int) {
 		}
 	}
 
+	var invs []invocation
 	for _, flags := range cfg.Flagsets {
+		invs = append(invs, invocation{Via: "prune", Flags: flags, Argv: append([]string{"prune"}, flags...)})
+	}
+	for _, f := range cfg.FetchRuns {
+		invs = append(invs, c.fetchInvocation(f))
+	}
+	// objects the fetch part of `fetch --prune` can download again: in HEAD of the worktree the command runs in and on the server
+	var fetchable []string
+	if out, ok := c.plain(cwdTop, "rev-parse", "-q", "--verify", "HEAD^{commit}"); ok {
+		for _, p := range c.ptrsAt(strings.TrimSpace(out)) {
+			if _, onServer := srv.Get(cfg.Remote, p.Ptr.Oid); onServer && content[p.Ptr.Oid] != nil && !excluded(cfg.Exclude, p.Path) {
+				fetchable = append(fetchable, p.Ptr.Oid)
+			}
+		}
+		sort.Strings(fetchable)
+	}
+	// scan failures: planned on the intact repository, applied before the first of the runs that come last
+	dmg := c.planDamage(orc, gitDir, cwdTop)
+	if dmg != nil {
+		for _, flags := range cfg.DamageFlagsets {
+			invs = append(invs, invocation{Via: "prune", Flags: flags, Argv: append([]string{"prune"}, flags...), Damage: dmg.Kind})
+		}
+		if idx%3 == 2 {
+			inv := c.fetchInvocation(fetchRun{RemoteArg: true})
+			inv.Damage = dmg.Kind
+			invs = append(invs, inv)
+		}
+	} else {
+		run.Count("cases_without_damage_candidate", 1)
+	}
+
+	for _, inv := range invs {
+		flags := inv.Flags
+		if inv.Damage != "" && !c.damaged {
+			c.applyDamage(dmg, gitDir)
+		}
+		// the coordinate of whatever is found in this run
+		caseTrig := c.trigger()
+		if inv.Damage != "" {
+			caseTrig = "scan-failure/" + inv.Damage
+		}
+		cmdline := "git lfs " + strings.Join(inv.Argv, " ")
+		if len(inv.Env) > 1 {
+			cmdline += " [" + strings.Join(inv.Env[1:], " ") + "]"
+		}
 		// restore the full store
 		for oid, b := range content {
 			p := sbx.ObjectPath(gitDir, oid)
@@ -1123,10 +1218,23 @@ func runCase(run *evid.Run, idx int) {
 				}
 			}
 		}
+		var removedForFetch []string
+		if inv.Via == "fetch-prune" && inv.Damage == "" {
+			for _, oid := range c.pick(fetchable, 2) {
+				if os.Remove(sbx.ObjectPath(gitDir, oid)) == nil {
+					removedForFetch = append(removedForFetch, oid)
+				}
+			}
+		}
 		before := localOids(gitDir)
-		args := append([]string{"prune"}, flags...)
-		res := env.Run(sbx.RunOpt{Dir: cwd}, "git-lfs", args...)
+		res := env.Run(sbx.RunOpt{Dir: cwd, Env: inv.Env}, "git-lfs", inv.Argv...)
 		after := localOids(gitDir)
+		for _, oid := range removedForFetch {
+			run.Count("fetch_route_objects_removed_before_the_run", 1)
+			if _, ok := after[oid]; ok {
+				run.Count("fetch_route_objects_downloaded_again", 1)
+			}
+		}
 		fl := strings.Join(flags, " ")
 		if fl == "" {
 			fl = "(none)"
@@ -1144,20 +1252,37 @@ func runCase(run *evid.Run, idx int) {
 			wt += "," + cfg.WtKind2
 		}
 		class := fmt.Sprintf("trigger=%s|attr=%s|ambient=%s|cwd=%s|wt=%s|%s,prune-remote=%s,remoterefs=%s|flags=%s", c.trigger(), cfg.AttrID, cfg.AmbID, cfg.Cwd, wt, remotes, pr, cfg.RemoteRefs, fl)
+		if inv.Via != "prune" {
+			class += "|via=" + inv.Via + "(" + inv.Note + ")"
+			run.Count("prune_runs_via_fetch_prune", 1)
+		}
+		if inv.Damage != "" {
+			class += "|damage=" + dmg.Kind + "," + dmg.Mode
+			run.Count("scan_failure_runs", 1)
+			run.Count(fmt.Sprintf("scan_failure_runs_exit_%d", res.Code), 1)
+			run.Count(fmt.Sprintf("scan_failure_runs_%s_exit_%d", strings.ReplaceAll(dmg.Kind, "-", "_"), res.Code), 1)
+			if strings.Contains(string(res.Stderr)+string(res.Stdout), "Prune sub-tasks failed") {
+				run.Count("scan_failure_runs_answered_sub_tasks_failed", 1)
+			}
+		}
 		run.Count("prune_runs", 1)
 		run.Count("objects_before", int64(len(before)))
 		run.Count("objects_after", int64(len(after)))
 		halted := false
 		switch {
 		case res.TimedOut:
-			run.Inconclusive(fmt.Sprintf("case %d: watchdog fired in git lfs prune %s", idx, fl))
+			run.Inconclusive(fmt.Sprintf("case %d: watchdog fired in %s", idx, cmdline))
 		case res.GoCrash():
-			run.Violation(evid.Sig{Symptom: "go-panic", Trigger: c.trigger()}, "git lfs prune "+fl+" crashed: "+sbx.Trunc(res.Stderr, 2000), c.detail(flags, nil))
+			run.Violation(evid.Sig{Symptom: "go-panic", Trigger: caseTrig}, cmdline+" crashed: "+sbx.Trunc(res.Stderr, 2000), c.detail(flags, map[string]any{"command": cmdline, "damage": dmgDetail(dmg, inv)}))
 		case res.OK():
 			run.Count("prune_runs_exit0", 1)
 		case strings.Contains(string(res.Stderr)+string(res.Stdout), "missing on remote"):
 			halted = true
 			run.Count("prune_runs_halted_unverified", 1)
+		case inv.Damage != "":
+			run.Count("prune_runs_failed_on_damaged_repository", 1)
+		case inv.Via == "fetch-prune":
+			run.Count("fetch_prune_runs_failed", 1)
 		default:
 			run.Count("prune_runs_failed_otherwise", 1)
 			run.Sample(map[string]any{"case": idx, "flags": fl, "prune_failed": sbx.Trunc(res.Stderr, 400)})
@@ -1173,6 +1298,15 @@ func runCase(run *evid.Run, idx int) {
 		run.Count("deleted_objects_checked_against_must_retain", int64(len(deleted)))
 		if len(deleted) > 0 {
 			run.Count("prune_runs_that_deleted_something", 1)
+			if inv.Via != "prune" {
+				run.Count("fetch_prune_runs_that_deleted_something", 1)
+			}
+			if inv.Damage != "" {
+				run.Count("scan_failure_runs_that_deleted_something", 1)
+			}
+		}
+		if inv.Via != "prune" {
+			run.Count("fetch_prune_deleted_objects_checked_against_must_retain", int64(len(deleted)))
 		}
 		dry := has(flags, "--dry-run")
 		force := has(flags, "--force")
@@ -1193,16 +1327,16 @@ func runCase(run *evid.Run, idx int) {
 		}
 		for _, oid := range deleted {
 			if dry {
-				flag("deleted-under-dry-run", c.trigger(), oid, "--dry-run")
+				flag("deleted-under-dry-run", caseTrig, oid, "--dry-run")
 			}
 			for _, cl := range orc.required(force, recent) {
 				if why, ok := orc.clause[cl][oid]; ok {
-					trig := c.trigger()
-					if cl == "recent-remote-ref" {
+					trig := caseTrig
+					if cl == "recent-remote-ref" && inv.Damage == "" {
 						// trigger of this clause = whose remote-tracking branch keeps the object recent
 						trig = orc.remoteRefKind[oid]
 					}
-					if cl == "checkout" {
+					if cl == "checkout" && inv.Damage == "" {
 						// an object that only registered worktrees without a directory need carries that state
 						// as its coordinate
 						if t := orc.checkoutTrigger(oid); t != "" {
@@ -1219,8 +1353,8 @@ func runCase(run *evid.Run, idx int) {
 						// The trigger of this symptom is decided per object: an object that is reachable
 						// under a path matching lfs.fetchexclude carries the coordinate
 						// "path-matches-fetchexclude" whatever else the case contains.
-						trig := c.trigger()
-						if orc.hasExcludedPath(oid) {
+						trig := caseTrig
+						if orc.hasExcludedPath(oid) && inv.Damage == "" {
 							trig = "path-matches-fetchexclude"
 						}
 						flag("unverified-reachable-object-pruned", trig, oid, why+"; absent from the server")
@@ -1239,11 +1373,11 @@ func runCase(run *evid.Run, idx int) {
 			}
 		}
 		for sig, objs := range bad {
-			what := fmt.Sprintf("git lfs prune %s (exit %d) deleted %d object(s) it must retain [%s], e.g. %s: %s", fl, res.Code, len(objs), sig.Symptom, objs[0]["oid"], objs[0]["why"])
-			run.Violation(sig, what, c.detail(flags, map[string]any{"objects": objs, "symptom": sig.Symptom, "prune_stdout": sbx.Trunc(res.Stdout, 600), "prune_stderr": sbx.Trunc(res.Stderr, 600), "lost_on_server": lost, "halted": halted}))
+			what := fmt.Sprintf("%s (exit %d) deleted %d object(s) it must retain [%s], e.g. %s: %s", cmdline, res.Code, len(objs), sig.Symptom, objs[0]["oid"], objs[0]["why"])
+			run.Violation(sig, what, c.detail(flags, map[string]any{"objects": objs, "symptom": sig.Symptom, "prune_stdout": sbx.Trunc(res.Stdout, 600), "prune_stderr": sbx.Trunc(res.Stderr, 600), "lost_on_server": lost, "halted": halted, "command": cmdline, "damage": dmgDetail(dmg, inv)}))
 		}
 		run.Case(class, map[string]any{"case": idx, "class": class, "days": []int{cfg.RefsDays, cfg.CommitsDays, cfg.OffsetDays}, "fetchexclude": cfg.Exclude, "remote": cfg.Remote, "prune_remote": cfg.PruneRemote(), "second_remote": cfg.Second, "fetchrecentremoterefs": cfg.RemoteRefs, "features": keys(c.feat), "worktree_kinds": wt, "needed_only_by_prunable_worktree": onlyPrunable,
-			"objects_before": len(before), "deleted": len(deleted), "exit": res.Code, "must_retain": orc.sizes(), "history_ops": len(c.g.Log), "state_steps": len(c.steps)})
+			"objects_before": len(before), "deleted": len(deleted), "exit": res.Code, "via": inv.Via, "damage": dmgDetail(dmg, inv), "must_retain": orc.sizes(), "history_ops": len(c.g.Log), "state_steps": len(c.steps)})
 	}
 	for f := range c.feat {
 		run.Count("cases_with_"+f, 1)
@@ -1254,16 +1388,24 @@ func runCase(run *evid.Run, idx int) {
 	}
 }
 
+func dmgDetail(d *damagePlan, inv invocation) any {
+	if d == nil || inv.Damage == "" {
+		return nil
+	}
+	return d
+}
+
 func main() {
 	run := evid.New("C05", "exploration")
 	if os.Getenv("VERIF_C05_KEEP") == "" {
 		defer sbx.RemoveBase()
 	}
-	run.Rule = "per repository: histgen history (branches, merges incl. octopus, orphan branches, tags, renames/copies/deletes, symlinks, exec bits, empty files, >=2 LFS files per commit in 3/4 of the cases) with commit ages drawn from {0.5,1.5,2.5,5,9,12,30} days; partial push (whole branch / ancestor / nothing / tags) through the pre-push hook to the in-driver fake LFS server; seeded plan over {local commits with 1-3 LFS files, delete+modify commits, stash plain/-u/--keep-index/--staged, staged files, unreachable objects, detached HEAD, branch switches, extra worktrees (detached or on a new branch, with staged file / local commit / stash; at the end 1/4 of them lose their directory, a third of those locked), text files moving in and out of LFS tracking, later pushes, stash drop, objects deleted on the server} x lfs.fetchrecentrefsdays/fetchrecentcommitsdays/pruneoffsetdays in {0,1,3,7} x lfs.fetchexclude patterns x prune remote name x cwd {top, sub-directory, extra worktree} x attribute spelling {track line, text, eol=lf, text eol=lf, diff=custom; tagged: binary, -diff, custom driver declared binary} x ambient ~/.gitconfig profile (9 harmless profiles; tagged: diff.noprefix, log.showroot=false, diff.relative) x remotes {single; in 1/3 of the cases a second remote `upstream` with its own LFS store, 2-3 branches with fresh objects pushed only to it with tip ages on both sides of the recent-refs window, one more pushed only to the first remote, local branches deleted (sometimes kept)} x lfs.pruneremotetocheck {unset, first remote, upstream} x lfs.fetchrecentremoterefs {unset, true, false} x final worktree states: one dedicated extra worktree per case with kind by case index in {present, present+staged LFS file, present detached, directory removed (Git: prunable), removed detached, removed + git worktree lock, removed + git worktree prune (registration gone)}, a second one in half of the cases; in 3/4 (always for kind removed) its HEAD is a dedicated commit aged 30 days with two fresh LFS files, pushed to the prune remote, so that only the registered worktree's checkout needs them; occasionally git worktree prune as last step x flag sets {--dry-run + X, (none), --recent, --force, --verify-remote, +--verify-unreachable, +--when-unverified=continue, combinations}. One evaluation = one `git lfs prune` run on the fully restored store. Class = (known trigger in the case, attribute spelling, ambient profile, cwd kind, kinds of the dedicated worktrees, remotes/prune remote/fetchrecentremoterefs, flags). Each period of 18 cases has 10 without any known trigger and 8 with exactly one."
+	run.Rule = "per repository: histgen history (branches, merges incl. octopus, orphan branches, tags, renames/copies/deletes, symlinks, exec bits, empty files, >=2 LFS files per commit in 3/4 of the cases) with commit ages drawn from {0.5,1.5,2.5,5,9,12,30} days; partial push (whole branch / ancestor / nothing / tags) through the pre-push hook to the in-driver fake LFS server; seeded plan over {local commits with 1-3 LFS files, delete+modify commits, stash plain/-u/--keep-index/--staged, staged files, unreachable objects, detached HEAD, branch switches, extra worktrees (detached or on a new branch, with staged file / local commit / stash; at the end 1/4 of them lose their directory, a third of those locked), text files moving in and out of LFS tracking, later pushes, stash drop, objects deleted on the server} x lfs.fetchrecentrefsdays/fetchrecentcommitsdays/pruneoffsetdays in {0,1,3,7} x lfs.fetchexclude patterns x prune remote name x cwd {top, sub-directory, extra worktree} x attribute spelling {track line, text, eol=lf, text eol=lf, diff=custom; tagged: binary, -diff, custom driver declared binary} x ambient ~/.gitconfig profile (9 harmless profiles; tagged: diff.noprefix, log.showroot=false, diff.relative) x remotes {single; in 1/3 of the cases a second remote `upstream` with its own LFS store, 2-3 branches with fresh objects pushed only to it with tip ages on both sides of the recent-refs window, one more pushed only to the first remote, local branches deleted (sometimes kept)} x lfs.pruneremotetocheck {unset, first remote, upstream} x lfs.fetchrecentremoterefs {unset, true, false} x a pushed recent branch `vb` whose commit inside the recent-commits window measured from its own tip replaces an LFS file (when both windows are > 0) x final worktree states: one dedicated extra worktree per case with kind by case index in {present, present+staged LFS file, present detached, directory removed (Git: prunable), removed detached, removed + git worktree lock, removed + git worktree prune (registration gone)}, a second one in half of the cases; in 3/4 (always for kind removed) its HEAD is a dedicated commit aged 30 days with two fresh LFS files, pushed to the prune remote, so that only the registered worktree's checkout needs them; occasionally git worktree prune as last step x flag sets {--dry-run + X, (none), --recent, --force, --verify-remote, +--verify-unreachable, +--when-unverified=continue, combinations}. Route: `git lfs prune <flags>`, and 1-2 runs per case through `git lfs fetch --prune [remote]` (verification via lfs.pruneverifyremotealways / lfs.pruneverifyunreachablealways, --dry-run, with and without lfs.fetchrecentalways and the remote argument; two objects of HEAD removed before so that the fetch part downloads). Last in every case: scan-failure runs: after the must-retain set was computed, one loose Git object a scan needs {stash commit / tree, newest unpushed commit / its tree, HEAD~1, HEAD's tree, tree of a recent branch tip, HEAD commit of another registered worktree} is deleted / emptied / overwritten with garbage, or refs/heads/broken is planted pointing at a missing commit (kind by case index, first applicable), then prune with (none) and one of {--verify-remote [--when-unverified=continue], --recent, --force} (+ fetch --prune in 1/3). One evaluation = one such run on the fully restored store. Class = (known trigger in the case, attribute spelling, ambient profile, cwd kind, kinds of the dedicated worktrees, remotes/prune remote/fetchrecentremoterefs, flags). Each period of 18 cases has 10 without any known trigger and 8 with exactly one."
 	run.Assumptions = []string{
 		"must-retain is a lower bound: weakest readings are documented in oracle.go (checkout = HEAD tree of every non-bare entry of `git worktree list --porcelain`, directory present or not, until `git worktree prune` unregisters it; index only of worktrees whose directory exists; recent remote refs = tips of remote-tracking branches of every remote unless lfs.fetchrecentremoterefs=false; stash = objects the stash commits add relative to their base commit; recent refs = local branches only; previous versions = pointers replaced by a pointer or deleted in a non-merge commit reachable through in-window commits; unpushed = in a tree of a commit reachable from a local branch/tag and in no tree of a commit reachable from refs/remotes/<prune remote>/*; fetchexclude exempts generously; --force waives everything but unpushed)",
 		"commit ages are >= 12 h away from every window boundary; the only use of the wall clock is the base time the ages are subtracted from",
 		"objects reachable from the remote-tracking refs were uploaded by the pre-push hook (the fake server loses only the objects the driver deletes)",
+		"scan-failure runs are judged against the must-retain set computed BEFORE the damage (for the flags given), whatever prune's exit status; no Git plumbing of the oracle runs on the damaged repository; a damage prune does not stumble over (it succeeds) is only counted",
 		"git 2.39.5, TZ=UTC",
 	}
 	n := run.N(18, 198)
